@@ -23,7 +23,9 @@ RULE = (
     "strings, lists, numpy arrays. Valid key: set changes exactly that setting to the harness's own literal denotation, get "
     "returns it, has is True. Invalid key: has is False and every entry point (Processor.set, sequential and dask "
     "observation in product/sequential mode, run_mode override_dct) raises before any model runs and leaves every object "
-    "unchanged (no invented attribute). Non-trivial: key depth >=3 with a textual value, or an invalid key; distinct by JSON."
+    "unchanged (no invented attribute). Part 'nested': keys that point inside a mapping-valued or list-of-mappings argument, over a generated history of "
+    "set / Processor.replace / create_new_processor / deepcopy on a pool of processors; after every step every processor of the pool must hold exactly the "
+    "values of a reference model (an assignment on one copy changes that copy and nothing else). Non-trivial: key depth >=3 with a textual value, or an invalid key; distinct by JSON."
 )
 ASSUMPTIONS = [
     "textual values with quotes, backslashes, leading/trailing blanks, hex/underscore/inf/nan spellings or Python keywords (True/None) are outside what a text literally denotes unambiguously and are not generated",
@@ -390,7 +392,82 @@ def body_disabled(case, rec):
     rec.check(not P.TRACE, "model_ran_with_invalid_key:disabled", f"{key}: {len(P.TRACE)} calls")
 
 
-PARTS = {"valid": body_valid, "invalid": body_invalid, "disabled": body_disabled}
+# ------------------------------------------------------------------ keys into mapping- / list-valued arguments, over a history of processor copies
+NESTED_LEAVES = ("cfgd.a", "cfgd.b.c", "lay.0.g", "lay.1.g")
+
+
+@st.composite
+def nested_cases(draw):
+    """1..2 models with a mapping-valued and a list-of-mappings argument; a history of assignments and copies over a pool of processors."""
+    groups, models = {}, []
+    for i in range(draw(st.integers(1, 2))):
+        g = draw(st.sampled_from([x for x in GROUP_ORDER if x not in groups]))
+        nm = f"nm{i}"
+        groups[g] = [{"name": nm, "func": "vprobes.models.trace", "enabled": True,
+                      "arguments": {"tag": nm, "plain": i, "cfgd": {"a": 1 + i, "b": {"c": 2 + i}}, "lay": [{"g": 10 + i}, {"g": 20 + i}]}}]
+        models.append((g, nm))
+    keys = [f"pipeline.{g}.{nm}.arguments.{leaf}" for g, nm in models for leaf in NESTED_LEAVES]
+    ops, npool = [], 1
+    for _ in range(draw(st.integers(2, 8))):
+        how = draw(st.sampled_from(["set", "set", "replace", "create_new", "deepcopy"]))
+        op = {"how": how, "on": draw(st.integers(0, npool - 1))}
+        if how != "deepcopy":
+            op["key"], op["value"] = draw(st.sampled_from(keys)), draw(st.integers(100, 999))
+        if how != "set":
+            npool += 1
+        ops.append(op)
+    return {"type": draw(st.sampled_from(["CCD", "CMOS"])), "pipeline": {"groups": groups, "yaml_perm": 0}, "keys": keys, "ops": ops}
+
+
+def _nested_read(proc, key):
+    """Read a nested leaf straight from the objects (never through Processor.get)."""
+    parts = key.split(".")
+    model = next(m for m in getattr(proc.pipeline, parts[1]).models if m.name == parts[2])
+    obj = model.arguments._arguments[parts[4]]
+    for comp in parts[5:]:
+        obj = obj[int(comp)] if isinstance(obj, list) else obj[comp]
+    return obj
+
+
+def body_nested(case, rec):
+    from pyxel.observation.misc import create_new_processor
+
+    keys = case["keys"]
+    pool = [build_processor({"type": case["type"], "pipeline": case["pipeline"]})]
+    model = [{k: _nested_read(pool[0], k) for k in keys}]
+    rec.cls(f"nested:pool_ops:{len(case['ops'])}")
+    rec.nt(any(o["how"] != "set" for o in case["ops"]) and any(o["how"] == "set" for o in case["ops"]))
+    for i, op in enumerate(case["ops"]):
+        how, j = op["how"], op["on"]
+        where = f"op#{i} {how} on processor {j}" + (f" {op['key']} <- {op['value']}" if "key" in op else "")
+        rec.cls(f"nested:{how}")
+        ok = False
+        with rec.must_not_raise(f"valid_nested_key_refused[{how}]"):
+            if how == "set":
+                rec.check(pool[j].has(op["key"]) is True, "has_false_for_valid_key", where)
+                pool[j].set(op["key"], op["value"])
+                model[j][op["key"]] = op["value"]
+                got = pool[j].get(op["key"])
+                rec.check(same_value(got, op["value"]), "get_differs_from_assigned", f"{where}: get returns {got!r}")
+            elif how == "deepcopy":
+                pool.append(copy.deepcopy(pool[j]))
+                model.append(dict(model[j]))
+            else:
+                new = pool[j].replace({op["key"]: op["value"]}) if how == "replace" else create_new_processor(pool[j], {op["key"]: op["value"]})
+                pool.append(new)
+                model.append(dict(model[j], **{op["key"]: op["value"]}))
+            ok = True
+        if not ok:
+            return
+        for n, proc in enumerate(pool):
+            real = {k: _nested_read(proc, k) for k in keys}
+            bad = [k for k in keys if not same_value(real[k], model[n][k])]
+            if not rec.check(not bad, "other_settings_changed" if n != j or how != "set" else "value_not_assigned_as_denoted",
+                             f"{where}: processor {n} holds {[(k.split('arguments.')[1], real[k]) for k in bad]}, expected {[(k.split('arguments.')[1], model[n][k]) for k in bad]}"):
+                return
+
+
+PARTS = {"valid": body_valid, "invalid": body_invalid, "disabled": body_disabled, "nested": body_nested}
 
 
 def plan(tier):
@@ -399,4 +476,5 @@ def plan(tier):
         Part(name="valid", kind="gen", strategy=valid_cases, examples=500 if q else 3000),
         Part(name="invalid", kind="gen", strategy=invalid_cases, examples=200 if q else 1500),
         Part(name="disabled", kind="gen", strategy=invalid_cases, examples=40 if q else 300),
+        Part(name="nested", kind="gen", strategy=nested_cases, examples=150 if q else 1000),
     ]
